@@ -280,6 +280,50 @@ def numbering(check, P):
     return n
 
 
+def ack_gate(check, P):
+    """Flow control: while a job is printing and the previous line has not been acknowledged (`clear` is False),
+    `_sendnext` may not send anything, advance the job or finish it -- whatever the queues hold.  A correct
+    implementation waits there (the abstract path does not complete); a completed path must be effect-free."""
+    W = pc_world(P)
+    I = W.I
+    I.event_funcs = {"printcore._send"}
+    I.intrinsics["printcore._send"] = lambda I_, fv, a, k, node: (I_.emit("CALL", node, func="printcore._send", args=tuple(a), kwargs=dict(k)), NONE)[1]
+    orig = I.ext_result
+
+    def ext_result(I_, callee, args, kwargs, node):
+        if I_.tag(callee) == "pc.mainqueue.idxs":
+            return Tup((Num(Poly.sym("layer"), True), Num(Poly.sym("line"), True)))
+        return orig(I_, callee, args, kwargs, node)
+    I.ext_result = ext_result
+    n = 0
+    for flow, streaming in ((FALSE, FALSE), (TRUE, FALSE)):
+        def setup(I_, flow=flow, streaming=streaming):
+            setup_sender(I_, W, printing=TRUE, online=TRUE, clear=FALSE, paused=FALSE, preprintsendcb=NONE, printsendcb=NONE, layerchangecb=NONE,
+                         tcp_streaming_mode=streaming)
+        completed = 0
+        for path in I.explore(setup, lambda I_, _: W.call_method(I_, "pc", "_sendnext", ()), max_dev=None, max_paths=5000):
+            n += 1
+            completed += 1
+            d = [decisions_text(path, 14)]
+            sends = calls(path, "printcore._send")
+            pc = path.heap[W.ref("pc").addr]
+            changed = [f for f, init in (("printing", TRUE), ("lineno", None), ("queueindex", None), ("resendfrom", None))
+                       if (pc.fields.get(f) != init if init is not None else any(e.kind == "SET" and e.data.get("field") == f for e in path.trace))]
+            if sends or changed:
+                what = []
+                if sends:
+                    what.append(f"sends {[s_.data['args'][1:] for s_ in sends]}")
+                if changed:
+                    what.append(f"changes {', '.join(changed)}")
+                check.violation("R7", "ack-gate:" + ("send" if sends else "state"),
+                                f"with the previous line still unacknowledged (clear is False) _sendnext {' and '.join(what)}: the answer to that line "
+                                "(an ok or a resend request) is no longer waited for", d)
+            else:
+                check.ok("R7", "an unacknowledged line: a completed _sendnext path has no effect")
+    check.ok("R7", "while the previous line is unacknowledged _sendnext sends nothing, advances nothing and does not finish the job")
+    return n
+
+
 def _is_job_line(v):
     if isinstance(v, Unk):
         return v.tag == "stripped-line"
@@ -513,11 +557,12 @@ def run(check, repo, tier):
     check.rule("R1", "framing N<lineno> <command>*<xor over the prefix>\\n; numbered text stored before the device write")
     check.rule("R2", "numbering: current lineno with checksum, lineno and queueindex advance by one; startprint resets to 0 and announces M110 N-1 first")
     check.rule("R3", "resend window dominates the queues: sentlines[resendfrom] re-sent un-renumbered, resendfrom += 1, nothing else")
+    check.rule("R7", "flow control: with the previous line unacknowledged (clear False) while printing, _sendnext sends nothing, advances nothing and does not finish the job")
     check.rule("R5", "job indexing: wherever the parser stores job lines, the i-th (layer, line) index pair locates the i-th line of the job")
     check.rule("R4", "listener: ok sets clear; resend assigns resendfrom from the first integer token, then clear")
     P = Program(repo)
     check.rule("R6", "comment stripping before transmission removes '(...)' and ';...' comments and nothing else (constant pattern evaluated on an oracle table of job lines)")
-    n = framing(check, P) + numbering(check, P) + listener(check, P) + job_indexing(check, P) + comment_stripping(check, P)
+    n = framing(check, P) + numbering(check, P) + ack_gate(check, P) + listener(check, P) + job_indexing(check, P) + comment_stripping(check, P)
     check.analysed = {"program": P.stats(), "abstract_paths": n, "functions": ["printcore._send", "_checksum", "_sendnext", "startprint", "_reset_line_numbers", "_listen",
                                                                                "GCode._preprocess.append_lines", "GCode.append"]}
     check.sample({"function": "printcore._send", "written": "N<lineno> <command>*<reduce(xor, map(ord, 'N<lineno> <command>'))>\\n", "stored_first": "sentlines[lineno]"})
